@@ -49,10 +49,7 @@ var guardTable = []guardSpec{
 // frozen exceptions: accesses that are ordered by something other than the lock
 var guardExceptions = map[string]string{
 	"Proxy.sessions@Connect":           "written once while Connect holds Proxy.mu and before isConnected is set: no listener, hence no client goroutine, exists yet",
-	"connPool.conns@connectPool$1":     "each start-up goroutine writes its own slot before the pool is returned (ordered by the WaitGroup)",
 	"connPool.conns@stayConnected:read": "first read of the goroutine's own slot; no other goroutine writes that element",
-	"connPool.conns@connectPool":       "construction and reads ordered by the WaitGroup before the pool is published",
-	"connPool.conns@connectPoolNoFail": "construction",
 }
 
 // guardedBy1 checks the given guarded-by entries and records one obligation per (field, function).
@@ -88,6 +85,9 @@ func guardedBy1(p *Prog, r *Report, rule string, specs []guardSpec) {
 				continue
 			}
 			if _, ok := guardExceptions[g.typ+"."+g.field+"@"+fname]; ok {
+				continue
+			}
+			if prePublication(p, acc.Fn, p.Named(g.pkg, g.typ)) {
 				continue
 			}
 			if _, ok := guardExceptions[g.typ+"."+g.field+"@"+fname+":read"]; ok && !acc.Write {
@@ -390,6 +390,9 @@ func c18Belief(p *Prog, r *Report) {
 						if _, ok := guardExceptions[exk]; ok {
 							continue
 						}
+						if prePublication(p, acc.Fn, obj.Type().(*types.Named)) {
+							continue
+						}
 						if _, ok := guardExceptions[exk+":read"]; ok && !acc.Write {
 							continue
 						}
@@ -547,4 +550,79 @@ func c18Publication(p *Prog, r *Report) {
 		})
 	}
 	r.count("published_objects", n)
+}
+
+// prePublication: the access happens while the object is being built and is not yet visible to
+// other goroutines: in a function that allocates the owner type (or receives it fresh from such
+// a constructor), or in a start-up goroutine/helper that such a function starts and joins
+// (sync.WaitGroup.Wait) before it returns the object.
+func prePublication(p *Prog, fn *ssa.Function, owner *types.Named) bool {
+	allocs := func(f *ssa.Function) bool {
+		found := false
+		eachInstr(f, func(in ssa.Instruction) {
+			if a, ok := in.(*ssa.Alloc); ok && a.Heap && namedOf(a.Type()) == owner {
+				found = true
+			}
+		})
+		return found
+	}
+	constructor := func(f *ssa.Function) bool {
+		if allocs(f) {
+			return true
+		}
+		ok := false
+		eachCall(f, func(c ssa.CallInstruction) {
+			if callee := c.Common().StaticCallee(); callee != nil && p.InRepo(callee) && allocs(callee) {
+				res := callee.Signature.Results()
+				if res.Len() > 0 && namedOf(res.At(0).Type()) == owner {
+					ok = true
+				}
+			}
+		})
+		return ok
+	}
+	root := rootFn(fn)
+	if constructor(root) {
+		return true
+	}
+	// started (go) or called only from constructors that wait for it
+	starters := 0
+	okAll := true
+	for f := range p.Funcs {
+		if !p.InRepo(f) || f.Blocks == nil {
+			continue
+		}
+		eachInstr(f, func(in ssa.Instruction) {
+			var cm *ssa.CallCommon
+			switch x := in.(type) {
+			case *ssa.Go:
+				cm = &x.Call
+			case *ssa.Call:
+				cm = &x.Call
+			default:
+				return
+			}
+			target := cm.StaticCallee()
+			if mc, ok := cm.Value.(*ssa.MakeClosure); ok {
+				target, _ = mc.Fn.(*ssa.Function)
+			}
+			if target == nil || rootFn(target) != root && target != fn {
+				return
+			}
+			starters++
+			host := rootFn(f)
+			waits := false
+			for _, g := range withClosures(host) {
+				eachCall(g, func(c ssa.CallInstruction) {
+					if callIsMethod(c, "sync", "WaitGroup", "Wait") {
+						waits = true
+					}
+				})
+			}
+			if !constructor(host) || !waits {
+				okAll = false
+			}
+		})
+	}
+	return starters > 0 && okAll
 }
